@@ -59,6 +59,7 @@ let parse_op (s : string) : op =
     let outs = Array.init 4 (fun i -> outcome_of_char s.[i + 1]) in
     OpNotify (fun u -> let i = int_of_z u in if i >= 0 && i < 4 then outs.(i) else OStatus (z_of_int 200))
   | 'Z' when n = 1 -> OpRestart
+  | 'Z' when n = 2 && s.[1] >= '1' && s.[1] <= '9' -> OpRestartMt (z_of_int (Char.code s.[1] - 48))
   | 'X' when n = 2 && s.[1] >= '0' && s.[1] <= '3' -> OpBad
   | _ -> raise (Malformed "op")
 
